@@ -249,6 +249,19 @@ def main(tier="quick", seed=0):
             subjects.append((("pool", e.name), {"sc": sc, "dseed": int(rng.integers(1000)), "variant": n_ % 2,
                                                 "rs_instance": bool(n_ % 3 == 2),
                                                 "tag": pc.scenario_tag(sc) + ("-rsinst" if n_ % 3 == 2 else "")}))
+    # larger pools (20-40 samples, batches of 4-8) for the strategies that cluster or sample: with a handful of
+    # points a clustering is the same for every initialisation and an unseeded estimator goes unnoticed
+    big = [x for x in pc.random_scenarios(rng, 400, 20, 40) if x["mode"] in ("none", "idx") and len(x["labeled"]) >= 2]
+    for x in big:
+        x["bs"] = int(rng.integers(4, 9))
+    for e in ENTRIES.values():
+        if e.cls_name in ("TypiClust", "ProbCover", "Clue", "DropQuery", "RegressionTreeBasedAL", "Badge", "Falcun",
+                          "CoreSet", "ContrastiveAL", "FourDs", "DiscriminativeAL"):
+            pool = [s for s in big if pc.applicable(e, s)]
+            for n_ in range(3 if quick else 20):
+                sc = pool[int(rng.integers(len(pool)))]
+                subjects.append((("pool", e.name), {"sc": sc, "dseed": int(rng.integers(1000)), "variant": n_ % 2,
+                                                    "rs_instance": False, "tag": pc.scenario_tag(sc) + "-big"}))
     reps = 10 if quick else 60
     for name in sorted(sc_.strategy_factories()):
         for _ in range(reps):
